@@ -29,9 +29,9 @@ checks = [
           "Trusts the simulator's Val/Presented/Capture caller stubs; xz presets 7-9 not exercised.",
           "deterministic simulation: seeded op histories + simulated BufRead refill schedules, real writer/reader/codecs"),
     check("C06", "exploration",
-          "Refinement against an independent reference container model written from the specification: direction A, every crate-written file must be accepted by the reference parser (magic, metadata, codec framing through the codec libraries' own APIs, CRC-32 big-endian over uncompressed data, sync, counts) and decode to the written values; direction B, reference-written files under PRNG-chosen free choices (partitioning, metadata order/splitting/negative counts, absent avro.codec, datum block layouts) must be read by the crate through slice and simulated stream readers.",
+          "Refinement against an independent reference container model written from the specification: direction A, every crate-written file must be accepted by the reference parser (magic, metadata, codec framing through the codec libraries' own APIs, CRC-32 big-endian over uncompressed data, sync, counts) and decode to the written values; direction B, reference-written files under PRNG-chosen free choices (partitioning, metadata order/splitting/negative counts, absent avro.codec, datum block layouts) and apache-avro-written files must be read by the crate through slice and simulated stream readers; apache-avro must read the crate's files.",
           "DESIGN.md §4 C06",
-          "The reference model is the judge of the specification; apache-avro is not linked as a second implementation.",
+          "The reference model (written from the specification) is the first judge; apache-avro 0.17 is linked as second implementation on the schema subset with an obvious Value mapping (no logical types, no zero-width values, no maps in files it writes).",
           "deterministic simulation: refinement against an executable reference model under seeded histories and refill schedules"),
     check("C11", "fault_enumeration",
           "For every generated (schema, bytes, target) the refill-partition space is enumerated: every Fixed(k) for k=1..len (len<=64), one refill boundary after every byte inside every multi-byte token, random cyclic plans, BufReader capacities 1..16; the reader outcome (value, bytes consumed, or Err) must equal the slice outcome. Same for single-object input and for whole container files of all six codecs (valid: call-by-call equality; damaged: outcome class + prefix relation). Scenarios are sampled, the schedule space of each is enumerated.",
